@@ -240,7 +240,35 @@ class Parser:
                 elif self.t[j][1] == ":" and depth == 0:
                     colon = j
                 elif self.t[j][1] == ";" and depth == 0:
-                    raise CppError("classic for loops are not supported")
+                    # classic for (init; cond; step): kept as one opaque statement (header and body are not interpreted)
+                    depth2 = 0
+                    while j < len(self.t):
+                        if self.t[j][1] == "(":
+                            depth2 += 1
+                        elif self.t[j][1] == ")":
+                            if depth2 == 0:
+                                break
+                            depth2 -= 1
+                        j += 1
+                    header = " ".join(v for _, v in self.t[self.i:j])
+                    self.i = j + 1
+                    start = self.i
+                    if self.peek()[1] == "{":
+                        d = 0
+                        while self.i < len(self.t):
+                            if self.t[self.i][1] == "{":
+                                d += 1
+                            elif self.t[self.i][1] == "}":
+                                d -= 1
+                                if d == 0:
+                                    self.i += 1
+                                    break
+                            self.i += 1
+                    else:
+                        while self.t[self.i][1] != ";":
+                            self.i += 1
+                        self.i += 1
+                    return [("opaque", header + " " + " ".join(v for _, v in self.t[start:self.i]))]
                 j += 1
             if colon is None:
                 raise CppError("for loop without ':'")
